@@ -172,9 +172,14 @@ func childListForwarded(fns []*ssa.Function, k kindInfo) (bool, ssa.Instruction)
 	}
 	for _, rd := range reads {
 		seen := map[ssa.Value]bool{}
+		// inner: the iteration over an intermediate container (the choices of an
+		// Alt) that the value passed through: what is handed on must be handed
+		// on inside that loop, once per element — a variable overwritten in the
+		// loop and consumed after it carries the last element only.
+		var inner *ssa.BasicBlock
 		var fwd func(v ssa.Value, d int) ssa.Instruction
 		fwd = func(v ssa.Value, d int) ssa.Instruction {
-			if d > 8 || seen[v] || v.Referrers() == nil {
+			if d > 10 || seen[v] || v.Referrers() == nil {
 				return nil
 			}
 			seen[v] = true
@@ -185,6 +190,26 @@ func childListForwarded(fns []*ssa.Function, k kindInfo) (bool, ssa.Instruction)
 						if b.Name() == "len" || b.Name() == "cap" {
 							continue
 						}
+						if b.Name() == "append" {
+							if cv, ok := x.(*ssa.Call); ok { // accumulation: follow the grown slice
+								if at := fwd(cv, d+1); at != nil {
+									return at
+								}
+							}
+							continue
+						}
+					}
+					// a getter on the element is a selection step, not a hand-over
+					if sc := x.Common().StaticCallee(); sc != nil && sc.Signature.Recv() != nil && strings.HasPrefix(sc.Name(), "Get") && len(x.Common().Args) == 1 && x.Common().Args[0] == v {
+						if cv, ok := x.(*ssa.Call); ok {
+							if at := fwd(cv, d+1); at != nil {
+								return at
+							}
+						}
+						continue
+					}
+					if inner != nil && !inLoopOf(inner, x.Block()) && !accumulated(v) {
+						continue // consumed after the loop: only the last element arrives
 					}
 					return x
 				case *ssa.Store:
@@ -203,6 +228,16 @@ func childListForwarded(fns []*ssa.Function, k kindInfo) (bool, ssa.Instruction)
 						}
 					}
 				case *ssa.IndexAddr:
+					if k.ChildField != "Stmt" && x.X == v {
+						// a slice range loop: the index is the loop's induction phi
+						idx := x.Index
+						if b, ok := idx.(*ssa.BinOp); ok {
+							idx = b.X
+						}
+						if ph, ok := idx.(*ssa.Phi); ok {
+							inner = ph.Block()
+						}
+					}
 					if at := fwd(x, d+1); at != nil {
 						return at
 					}
@@ -223,6 +258,9 @@ func childListForwarded(fns []*ssa.Function, k kindInfo) (bool, ssa.Instruction)
 						return at
 					}
 				case *ssa.Next:
+					if k.ChildField != "Stmt" { // iterating the intermediate container
+						inner = x.Block()
+					}
 					if at := fwd(x, d+1); at != nil {
 						return at
 					}
@@ -370,4 +408,57 @@ func lowerAll(m map[string]int64, skipZero bool) []string {
 	}
 	sort.Strings(out)
 	return out
+}
+
+// inLoopOf: is block b in the natural loop(s) headed by h?
+func inLoopOf(h, b *ssa.BasicBlock) bool {
+	if h == b {
+		return true
+	}
+	body := map[*ssa.BasicBlock]bool{h: true}
+	var work []*ssa.BasicBlock
+	for _, t := range h.Preds {
+		if h.Dominates(t) && !body[t] {
+			body[t] = true
+			work = append(work, t)
+		}
+	}
+	for len(work) > 0 {
+		n := work[len(work)-1]
+		work = work[:len(work)-1]
+		for _, pr := range n.Preds {
+			if !body[pr] {
+				body[pr] = true
+				work = append(work, pr)
+			}
+		}
+	}
+	return body[b]
+}
+
+// accumulated: v is (a phi over) the result of an append — a grown slice, not a
+// variable overwritten per iteration.
+func accumulated(v ssa.Value) bool {
+	seen := map[ssa.Value]bool{}
+	var rec func(v ssa.Value, d int) bool
+	rec = func(v ssa.Value, d int) bool {
+		if v == nil || seen[v] || d > 5 {
+			return false
+		}
+		seen[v] = true
+		switch x := v.(type) {
+		case *ssa.Call:
+			if b, ok := x.Call.Value.(*ssa.Builtin); ok && b.Name() == "append" {
+				return true
+			}
+		case *ssa.Phi:
+			for _, e := range x.Edges {
+				if rec(e, d+1) {
+					return true
+				}
+			}
+		}
+		return false
+	}
+	return rec(v, 0)
 }
